@@ -394,6 +394,64 @@ class Env:
         grads = tuple(gr if gr is not None else T.zeros_like(x) for gr, x in zip(grads, ins))
         return out.detach(), grads
 
+    def no_graph_cut(self, name, fn, x, tol=None, group=None):
+        """fn is a plain-torch segment (differentiated op by op by reverse-mode autograd, not by a hand-written backward): autograd's
+        Jacobian w.r.t. the 1-d tensor x equals the true one.
+        sym: every .detach()/.data inside the segment tags its value; the clause is proved when no entry of the result is computed
+             from a tagged value that depends on x (sufficient condition: the full dependence on x is in the graph).  A tagged
+             dependence is an over-approximation of lost gradient: reported failed only with a failing input of the real code
+             (needs_cex), otherwise undecided.
+        num: torch.autograd.functional.jacobian of the real code against central differences."""
+        if self.mode == 'sym':
+            st.CUTS = {}
+            try:
+                y = fn(x)
+            finally:
+                cuts, st.CUTS = st.CUTS, None
+            ya = st._T(y)._a; xa = x._a
+            xvs = []
+            for j in np.ndindex(xa.shape):
+                (m, cc), = xa[j].num.t.items(); xvs.append(m[0][0])
+            cache = {}
+            dep = {}
+            for mk_, v in cuts.items():
+                dep[mk_] = any(not AT.diff(Frac(v.num, v.den), xv, cache).same(Frac.const(0)) for xv in xvs)
+            bad = []
+            for i in np.ndindex(ya.shape):
+                e = ya[i]
+                if not isinstance(e, Frac): continue
+                hit = [mk_ for mk_ in e.guards if mk_ in dep and dep[mk_]]
+                if hit: bad.append((list(i), len(hit)))
+            self.notes.append(('graph cuts seen', len(cuts)))
+            if bad:
+                self._record(name, 'failed', {'needs_cex': True, 'entries_computed_from_detached_values': bad[:6], 'cuts': len(cuts)})
+                return False
+            self._record(name, 'proved', {'entries': int(ya.size), 'cuts_seen': len(cuts), 'backend': 'dependence'})
+            return True
+        T = self.T
+        x0 = x.detach().clone()
+        def f(z):
+            out = fn(z)
+            return out.tensor() if hasattr(out, 'ltype') else out
+        Ja = T.autograd.functional.jacobian(f, x0)
+        t = tol if tol is not None else max(self.tol, 2e-5)
+        if group is None:
+            return self.eq(name, Ja, self.jacobian(fn, x0), t)
+        # group-typed input: autograd returns the left-perturbation Jacobian in the first dof slots (and 0 in the last one)
+        import pypose as pp
+        dof = {'SO3': 3, 'SE3': 6, 'RxSO3': 4, 'Sim3': 7}[group]
+        lt_ = getattr(pp, group + '_type'); at_ = getattr(pp, {'SO3': 'so3', 'SE3': 'se3', 'RxSO3': 'rxso3', 'Sim3': 'sim3'}[group] + '_type')
+        X0 = pp.LieTensor(x0, ltype=lt_)
+        cols = []
+        h = 1e-6
+        for j in range(dof):
+            d = T.zeros(dof, dtype=x0.dtype); d[j] = h
+            Xp = (pp.LieTensor(d, ltype=at_).Exp() @ X0).tensor(); Xm = (pp.LieTensor(-d, ltype=at_).Exp() @ X0).tensor()
+            cols.append((f(Xp) - f(Xm)) / (2 * h))
+        Jn = T.stack(cols, -1)
+        Jn = T.cat([Jn, T.zeros_like(Jn[..., :1])], -1) if Ja.shape[-1] == dof + 1 else Jn
+        return self.eq(name, Ja, Jn, t)
+
     def holds(self, name, cond):
         """boolean obligation; cond is a (tensor of) comparison result(s) built with the T namespace"""
         if self.mode == 'sym':
@@ -555,13 +613,14 @@ def symvals_from_sample(decls, sample):
 class PathResult:
     def __init__(self): pass
 
-def run_symbolic(fn, loader, max_paths=64, z3_timeout=2000, seed=0, witness_tries=60, eps_value=2.0 ** -52):
-    """explore all paths of contract function fn(env). returns dict"""
+def run_symbolic(fn, loader, max_paths=64, z3_timeout=2000, seed=0, witness_tries=60, eps_value=2.0 ** -52, first_only=False):
+    """explore all paths of contract function fn(env) (first_only: the first feasible path - for clauses that do not depend on values). returns dict"""
     work = [[]]
     paths = []
     n_inf = 0
     t0 = time.time()
     while work:
+        if first_only and paths: break
         prefix = work.pop()
         if len(paths) >= max_paths:
             raise PathLimit(f"more than {max_paths} paths")
@@ -586,6 +645,12 @@ def run_symbolic(fn, loader, max_paths=64, z3_timeout=2000, seed=0, witness_trie
                 outcome = 'gap'; err = f'{type(e).__name__}: {e}'
             else:
                 outcome = 'raised'; err = f'NotImplementedError: {str(e)[:300]}\n' + traceback.format_exc()[-1500:]
+        except TypeError as e:
+            tb = traceback.extract_tb(e.__traceback__)
+            if tb and '/pvc/' in tb[-1].filename and ('unexpected keyword' in str(e) or 'positional argument' in str(e)):
+                outcome = 'gap'; err = f'TypeError in the torch model (signature not modelled): {e}'
+            else:
+                outcome = 'raised'; err = f'TypeError: {str(e)[:300]}\n' + traceback.format_exc()[-1500:]
         except AssertionError as e:
             outcome = 'raised'; err = 'AssertionError: ' + str(e)[:300] + '\n' + traceback.format_exc()[-1500:]
         except Exception as e:
